@@ -253,6 +253,16 @@ func NewDB(opts *DBOpts) (*DB, error) {
 		}
 	}
 
+	initOptionalExprs.Do(func() {
+		// Queries may use ISP and redis expressions even if these haven't been
+		// configured. Unconfigured, ISP lookups panic and redis expressions leave
+		// goexpr's cache lock held forever (wedging every later evaluation), so
+		// start out with stand-ins that find nothing. Real configuration below
+		// replaces them.
+		isp.SetProvider(noISPProvider{}, 1)
+		geredis.Configure(nil, 1)
+	})
+
 	if opts.EnableGeo {
 		db.log.Debug("Enabling geolocation functions")
 		err = geo.Init(filepath.Join(opts.Dir, "geoip.dat"), opts.IPCacheSize)
@@ -307,6 +317,16 @@ func NewDB(opts *DBOpts) (*DB, error) {
 
 	return db, err
 }
+
+var initOptionalExprs sync.Once
+
+// noISPProvider is an isp.Provider that doesn't know about any IPs
+type noISPProvider struct{}
+
+func (noISPProvider) ISP(ip string) (string, bool)    { return "", false }
+func (noISPProvider) ORG(ip string) (string, bool)    { return "", false }
+func (noISPProvider) ASN(ip string) (int, bool)       { return 0, false }
+func (noISPProvider) ASName(ip string) (string, bool) { return "", false }
 
 // FlushAll flushes all tables
 func (db *DB) FlushAll() {
